@@ -336,7 +336,16 @@ pub fn run(tier: Tier, seed: u64, only: Option<String>) -> i32 {
             }
             rep.merge(o);
         }
-        None => rep.run_parallel(n + walks, |i| if i < walks { walk_job(seed, i, tier) } else { e2e_scenario(seed, i - walks, tier) }),
+        None => {
+            rep.run_parallel(n + walks, |i| if i < walks { walk_job(seed, i, tier) } else { e2e_scenario(seed, i - walks, tier) });
+            // "a sequence number used in the immediately preceding round is never valid in the
+            // current one", on its second observable: a late response naming such a number must
+            // be dropped, not used to index the round buffer (the C03 worlds with late copies,
+            // judged here only for panics and for termination)
+            let cells = crate::scen::all_cells(false);
+            let m = tier.pick(cells.len(), cells.len() * 6);
+            rep.run_parallel(m, |i| crate::props::c03::run_scenario(seed ^ 0xC07, i, &cells, tier).retain_clauses(&[], "late-responses"));
+        }
     }
     let nodes = rep.counters.get("allocator_graph_nodes").copied().unwrap_or(0);
     let edges = rep.counters.get("allocator_graph_edges").copied().unwrap_or(0);
